@@ -251,6 +251,7 @@ func init() {
 			{Name: "random", TShards: 4, Run: c12Random},
 			{Name: "bytes", Run: c12Bytes},
 			{Name: "afteruse", Run: afterUse(c12Bytes)},
+			{Name: "srcviews", TShards: 2, Run: srcViewUnit(viewCallsC12)},
 			{Name: "longcontext", QShards: 8, TShards: 12, Run: func(c *Ctx) {
 				longContextPanics(c, 0, "ACGTNacgtn", []byte{'U', 'R', '@', 0, 0xff, 0x80, 'B', 'M'}, map[string]func([]byte){
 					"ReverseComplement":                           func(s []byte) { sequtil.ReverseComplement(nil, s) },
